@@ -64,16 +64,17 @@ impl<T: Send + Ord + 'static> OrderedVec<T> {
             self.sub_vectors.borrow_mut().push(items);
         }
 
-        let too_many_moved = items_smaller.len() >= ORDERED_SIZE;
+        let too_many_moved = items_smaller.len() >= MAX_MOVEMENT;
         trace!("append_ordered: num_moved: {}", items_smaller.len());
 
         sorted.append(&mut items_smaller);
         if too_many_moved {
-            // means the current sorted vector contains item that's large
+            // the move limit was hit, so the remaining new items may still rank before
+            // items of the current sorted vector: it is no longer a globally sorted prefix
             // so we'll move the sorted vector to partially sorted candidates.
             self.sort_vector(&mut sorted, false);
-            let old_vec = self.sorted.replace(DeferDrop::new(Vec::new()));
-            self.sub_vectors.borrow_mut().push(DeferDrop::into_inner(old_vec));
+            let old_vec = std::mem::take(&mut **sorted);
+            self.sub_vectors.borrow_mut().push(old_vec);
         } else {
             self.sort_vector(&mut sorted, true);
         }
